@@ -197,7 +197,7 @@ pub fn gen_script(rng: &mut Rng, ctx: &mut Ctx, depth: u32, is_reply: bool) -> S
             let o = if rng.chance(1, 2) { "asc" } else { "desc" };
             let s = if rng.chance(1, 2) { "~".to_string() } else { rng.pick(KEYS).to_string() };
             let e = if rng.chance(1, 2) { "~".to_string() } else { rng.pick(KEYS).to_string() };
-            acts.push(format!("(rng {} {} {})", s, e, o));
+            acts.push(format!("({} {} {} {})", if rng.chance(1, 3) { "rngk" } else { "rng" }, s, e, o));
         } else if r < 44 {
             acts.push(format!("(attr {} {})", attr_key(rng, ctx), rng.pick(VALS)));
         } else if r < 50 {
